@@ -40,3 +40,106 @@ def lemma_pc_perfect(r: Arr(Real, None), w: Real):
     requires(valid_ts(r, r), w >= 0)
     sum_const(indicator(r, r, w), 1.0)
     ensures(percentage_correct(r, r, w) == 1, label='perfect')
+
+
+# ----------------------------------------------------------------------------- percentage of correct segments
+def seg_start(a, i):
+    return ite(i == 0, 0.0, a[i - 1])
+
+
+def seg_end(a, i, n, dur):
+    return ite(i == n, dur, a[i])
+
+
+def overlaps_dur(r, e, dur):
+    """per-segment overlap when the audio duration is given: segments [0, t0], [t0, t1], ..., [t_{n-1}, dur]"""
+    n = length(r)
+    return array_of(n + 1, lambda i: max(min(seg_end(r, i, n, dur), seg_end(e, i, n, dur)) - max(seg_start(r, i), seg_start(e, i)), 0.0))
+
+
+def ref_lengths_dur(r, dur):
+    n = length(r)
+    return array_of(n + 1, lambda i: seg_end(r, i, n, dur) - seg_start(r, i))
+
+
+def bounds_dur(r, dur):
+    n = length(r)
+    return array_of(n + 2, lambda i: ite(i == 0, 0.0, ite(i == n + 1, dur, r[i - 1])))
+
+
+def overlaps_mirex(r, e):
+    """MIREX style: only the segments between consecutive reference timestamps"""
+    return array_of(length(r) - 1, lambda i: max(min(r[i + 1], e[i + 1]) - max(r[i], e[i]), 0.0))
+
+
+def ref_lengths_mirex(r):
+    return array_of(length(r) - 1, lambda i: r[i + 1] - r[i])
+
+
+@contract("mir_eval.alignment.percentage_correct_segments", props="C01 C04 C14")
+def percentage_correct_segments(reference_timestamps: Arr(Real, None), estimated_timestamps: Arr(Real, None), duration: Opt(Real) = None) -> Real:
+    r = reference_timestamps
+    e = estimated_timestamps
+    n = length(r)
+    raises(ValueError, when=not valid_ts(r, e)
+           or (not is_none(duration) and (val(duration) <= 0 or exists(0, n, lambda i: r[i] > val(duration)) or exists(0, n, lambda i: e[i] > val(duration))))
+           or (is_none(duration) and r[n - 1] - r[0] <= 0), props="C14")
+    if is_none(duration):
+        ov = overlaps_mirex(r, e)
+        ensures(result == sum_of(ov) / (r[n - 1] - r[0]), label='def-mirex', props="C04")
+        sum_nonneg(ov)
+        sum_le(ov, ref_lengths_mirex(r))
+        sum_telescope(ref_lengths_mirex(r), r)
+    else:
+        ov = overlaps_dur(r, e, val(duration))
+        ensures(result == sum_of(ov) / val(duration), label='def-duration', props="C04")
+        sum_nonneg(ov)
+        sum_le(ov, ref_lengths_dur(r, val(duration)))
+        sum_telescope(ref_lengths_dur(r, val(duration)), bounds_dur(r, val(duration)))
+    ensures(0 <= result, result <= 1, label='range', props="C01")
+
+
+@lemma("C02")
+def lemma_pcs_perfect(r: Arr(Real, None), dur: Opt(Real)):
+    """an exact copy scores PCS = 1, with or without the audio duration"""
+    n = length(r)
+    requires(valid_ts(r, r), implies(is_none(dur), r[n - 1] - r[0] > 0), implies(not is_none(dur), val(dur) > 0 and forall(0, n, lambda i: r[i] <= val(dur))))
+    if is_none(dur):
+        sum_eq(overlaps_mirex(r, r), ref_lengths_mirex(r))
+        sum_telescope(ref_lengths_mirex(r), r)
+    else:
+        sum_eq(overlaps_dur(r, r, val(dur)), ref_lengths_dur(r, val(dur)))
+        sum_telescope(ref_lengths_dur(r, val(dur)), bounds_dur(r, val(dur)))
+    ensures(percentage_correct_segments(r, r, dur) == 1, label='perfect')
+
+
+@lemma("C08")
+def lemma_pcs_time_shift(r: Arr(Real, None), e: Arr(Real, None), c: Real):
+    """MIREX-style PCS (no duration) is unchanged when the same offset is added to all reference and estimated times"""
+    n = length(r)
+    requires(valid_ts(r, e), r[n - 1] - r[0] > 0, c >= 0)
+    r2 = array_of(n, lambda i: r[i] + c)
+    e2 = array_of(n, lambda i: e[i] + c)
+    sum_eq(overlaps_mirex(r2, e2), overlaps_mirex(r, e))
+    ensures(percentage_correct_segments(r2, e2, None) == percentage_correct_segments(r, e, None), label='shift')
+
+
+# ----------------------------------------------------------------------------- absolute error
+@contract("mir_eval.alignment.absolute_error", props="C01 C04 C14")
+def absolute_error(reference_timestamps: Arr(Real, None), estimated_timestamps: Arr(Real, None)) -> Tup(Real, Real):
+    raises(ValueError, when=not valid_ts(reference_timestamps, estimated_timestamps), props="C14")
+    n = length(reference_timestamps)
+    dev = array_of(n, lambda i: absr(reference_timestamps[i] - estimated_timestamps[i]))
+    ensures(result[1] == sum_of(dev) / n, label='mean-def', props="C04")
+    sum_nonneg(dev)
+    ensures(result[0] >= 0, result[1] >= 0, label='nonneg', props="C01")
+    ensures(implies(forall(0, n, lambda i: reference_timestamps[i] == estimated_timestamps[i]), result[0] == 0), label='median-of-zeros', props="C02")
+    ensures(result[0] == median_of(dev), label='median-def', props="C04")
+
+
+@lemma("C02")
+def lemma_absolute_error_perfect(r: Arr(Real, None)):
+    requires(valid_ts(r, r))
+    sum_zero(array_of(length(r), lambda i: absr(r[i] - r[i])))
+    med, mean = absolute_error(r, r)
+    ensures(med == 0, mean == 0, label='perfect')
